@@ -15,6 +15,12 @@
 (*                      wb = backup-storage write fails (fatal),           *)
 (*                      rr = backup-storage read fails during restore,     *)
 (*                      wr = restore-target write fails.                   *)
+(*                      wbt / wrt = the same write faults but transient:   *)
+(*                      only the first attempt fails (after consuming part *)
+(*                      of the body); a second attempt would succeed.  The *)
+(*                      code as it is makes exactly one attempt per file,  *)
+(*                      so they behave like wb / wr -- the dimension is    *)
+(*                      there so that a retry added later is exercised.    *)
 (* Filler files (never faulted) only enter the skip-ratio arithmetic.      *)
 (*                                                                         *)
 (* LegacySkip = FALSE : the code as it is now (arc 0fc80ea): a file that   *)
@@ -35,12 +41,14 @@ CONSTANTS Order,      \* Seq of file ids in the order the code visits them
 
 \* visiting orders used by the configs: parquet group first (listing order), then Iceberg group
 OrderSmall == <<"p1", "p3", "i1", "i3">>
-OrderLarge == <<"p1", "p2", "p3", "i1", "i2", "i3">>
+OrderLarge == <<"p1", "p3", "i1", "i2", "i3">>
 FillSmall  == {0, 16}
 FillLarge  == {16}
 
 Files  == {Order[i] : i \in 1..Len(Order)}
-Faults == {"none", "rb", "wb", "rr", "wr"}
+Faults == {"none", "rb", "wb", "wbt", "rr", "wr", "wrt"}
+BackupWriteFaults  == {"wb", "wbt"}     \* one attempt per file: a transient fault is as fatal as a permanent one
+RestoreFileFaults  == {"rr", "wr", "wrt"}
 
 VARIABLES present,   \* SUBSET Files : the tree
           fault,     \* [Files -> Faults]
@@ -76,7 +84,7 @@ BackupSkipAbsent ==
 
 BackupCopy ==
     /\ pc = "backup" /\ i <= Len(Order) /\ Order[i] \in present
-    /\ fault[Order[i]] \notin {"rb", "wb"}
+    /\ fault[Order[i]] \notin ({"rb"} \cup BackupWriteFaults)
     /\ stored' = stored \cup {Order[i]} /\ i' = i + 1
     /\ UNCHANGED <<present, fault, filler, pc, skipped, bstatus, mskipped, restored, rfailed, rstatus>>
 
@@ -90,7 +98,7 @@ BackupSkipUnreadable ==
 \* any other failure aborts the backup: no manifest is written
 BackupWriteFatal ==
     /\ pc = "backup" /\ i <= Len(Order) /\ Order[i] \in present
-    /\ fault[Order[i]] = "wb"
+    /\ fault[Order[i]] \in BackupWriteFaults
     /\ bstatus' = "failed" /\ pc' = "rmanifest"
     /\ UNCHANGED <<present, fault, filler, i, stored, skipped, mskipped, restored, rfailed, rstatus>>
 
@@ -128,14 +136,14 @@ RestoreSkipNotStored ==
 
 RestoreCopy ==
     /\ pc = "restore" /\ i <= Len(Order) /\ Order[i] \in stored
-    /\ fault[Order[i]] \notin {"rr", "wr"}
+    /\ fault[Order[i]] \notin RestoreFileFaults
     /\ restored' = restored \cup {Order[i]} /\ i' = i + 1
     /\ UNCHANGED <<present, fault, filler, pc, stored, skipped, bstatus, mskipped, rfailed, rstatus>>
 
 \* streamRestoreFile failed: Warn, count (unless LegacySkip), continue with the next file
 RestoreFileFails ==
     /\ pc = "restore" /\ i <= Len(Order) /\ Order[i] \in stored
-    /\ fault[Order[i]] \in {"rr", "wr"}
+    /\ fault[Order[i]] \in RestoreFileFaults
     /\ i' = i + 1
     /\ rfailed' = IF LegacySkip THEN rfailed ELSE rfailed + 1
     /\ UNCHANGED <<present, fault, filler, pc, stored, skipped, bstatus, mskipped, restored, rstatus>>
